@@ -353,6 +353,16 @@ class Check:
             self.solver_time += res_h.time
             if res_h.status == "sat":
                 res = res_h
+        if res.status == "unknown" and not nonlinear:
+            # second decision procedure: Ackermann-reduce the uninterpreted applications (equisatisfiable; the finiteness predicate FIN is left
+            # free, an over-approximation whose models are confirmed by replay like every other) and decide with nlsat
+            for extra in ([[]] + ([[h for h in search_hints if not (isconc(h) and h)]] if search_hints else [])):
+                res_n = solve.decide(fs + extra, timeout_s=timeout or self.default_timeout, nonlinear=True)
+                self.queries += 1
+                self.solver_time += res_n.time
+                if res_n.status == "sat" or (res_n.status == "unsat" and not extra):
+                    res = res_n
+                    break
         if res.status == "unknown":
             # fallback: linear over-approximation (UF applications and nonlinear products become opaque constants).  unsat there is a proof;
             # sat there is only a candidate counterexample, which counts if and only if the replay reproduces it on the real code
